@@ -7,8 +7,8 @@ ID="$1"; TIER="${2:-${VERIF_TIER:-quick}}"
 export CARGO_NET_OFFLINE=true
 cd /verif/harness || exit 2
 case "$ID" in
-  C12|C17) CRATE=/verif/harness-bin; BIN=/verif/target/release/check-bin ;;
-  *)       CRATE=/verif/harness;     BIN=/verif/target/release/check ;;
+  C17) CRATE=/verif/harness-bin; BIN=/verif/target/release/check-bin ;;
+  *)   CRATE=/verif/harness;     BIN=/verif/target/release/check ;;
 esac
 LOG=/verif/target/build-$ID.log
 mkdir -p /verif/target
@@ -16,5 +16,13 @@ if ! (cd "$CRATE" && cargo build --release --offline -q) >"$LOG" 2>&1; then
   echo "BUILD FAILED (harness against /repo working tree); see $LOG"
   grep -E "^error" -A 8 "$LOG" | head -60
   exit 2
+fi
+if [ "$ID" = C12 ] || [ "$ID" = C06 ]; then
+  # process-level part: the real binary, built from /repo's working tree with the hooks off
+  if ! (cd /repo && cargo build --offline -q -p emulator-2a --target-dir /verif/target/repo-bin) >>"$LOG" 2>&1; then
+    echo "BUILD FAILED (2a-emulator binary from /repo working tree); see $LOG"
+    grep -E "^error" -A 8 "$LOG" | head -60
+    exit 2
+  fi
 fi
 exec "$BIN" "$ID" --tier "$TIER" "$@"
